@@ -154,7 +154,7 @@ pub fn gen_history(rng: &mut Rng, n_links: usize, hbfs_per_link: u64, p_fault_pe
         used.push(link_id);
         let fee = fee_id(rng.below(7) as u8, rng.below(48) as u8, rng.below(4) as u8);
         let mut seq: Vec<Rdh> = Vec::new();
-        let mut orbit = rng.next_u32() >> 1;
+        let mut orbit = if rng.chance(1, 4) { u32::MAX - rng.below(4) as u32 } else { rng.next_u32() };
         let n_hbf = rng.range(1, hbfs_per_link.max(1));
         let mut pc = rng.below(256) as u8;
         for h in 0..n_hbf {
@@ -180,7 +180,17 @@ pub fn gen_history(rng: &mut Rng, n_links: usize, hbfs_per_link: u64, p_fault_pe
                 });
                 pc = pc.wrapping_add(1);
             }
-            orbit = orbit.wrapping_add(1 + rng.below(3) as u32);
+            orbit = if rng.chance(1, 3) {
+                // arbitrary (non-monotonic) next orbit, only required to differ
+                loop {
+                    let o = rng.next_u32();
+                    if o != orbit {
+                        break o;
+                    }
+                }
+            } else {
+                orbit.wrapping_add(1 + rng.below(3) as u32)
+            };
         }
         // faults from the third RDH on (the first two pages stay clean, as the quantifier says)
         let mut i = 2;
